@@ -56,7 +56,8 @@ def issue(s, kind):
 
 def run(case):
     from tornado.iostream import IOStream, StreamClosedError
-    connecting, pre, ri, nwrites, di, mode, cause, li = case
+    connecting, pre, ri, nwrites, di, mode, cause, li = case[:8]
+    cancel = case[8] if len(case) > 8 else None
     rkind = READS[ri]
     data = DATA[di]
     obs = {"futs": {}, "cb": 0, "cb_all_done": None, "later": None, "write_after": None, "counts": {}}
@@ -93,6 +94,11 @@ def run(case):
             sock.blocked = True
             track("write%d" % i, s.write(b"w%d" % i * 10))
         w.pump()
+        if cancel is not None and cancel in tracked and not tracked[cancel].done():
+            # the caller gave up on this operation (e.g. asyncio.wait_for timed out); everything else still settles
+            tracked[cancel].cancel()
+            obs["cancelled"] = cancel
+            w.pump()
         # data before / with the cause
         if mode == "separate" and data:
             sock.feed(data)
@@ -182,7 +188,8 @@ def run(case):
 
 
 def judge(case, obs):
-    connecting, pre, ri, nwrites, di, mode, cause, li = case
+    connecting, pre, ri, nwrites, di, mode, cause, li = case[:8]
+    cancel = obs.get("cancelled")        # None when the operation had already completed
     rkind = READS[ri]
     bad = []
     exc = obs["exc"]
@@ -196,7 +203,9 @@ def judge(case, obs):
         if any_oserror:
             return isinstance(real, OSError)
         return real is exc
-    if rkind is not None:
+    if cancel is not None and obs["futs"].get(cancel, ("cancelled",))[0] != "cancelled":
+        bad.append(("cancelled-future-changed", "%s was cancelled by the caller and is now %r" % (cancel, obs["futs"][cancel])))
+    if rkind is not None and cancel != "read":
         avail = pulled[consumed:]
         got = obs["futs"].get("read")
         n = satisfy(rkind, avail, at_close=True)
@@ -230,6 +239,10 @@ def judge(case, obs):
                 bad.append(("read:real_error", "real_error %r, cause %r" % (got[2], exc)))
     for name, got in obs["futs"].items():
         base = name.rstrip("01")
+        if name == cancel and got[0] == "cancelled":
+            if obs["counts"][name] != 1:
+                bad.append(("%s:done-callbacks-%d" % (base, obs["counts"][name]), "cancelled %s future completed %d times" % (name, obs["counts"][name])))
+            continue
         if obs["counts"][name] != 1:
             bad.append(("%s:done-callbacks-%d" % (base, obs["counts"][name]),
                         "%s future completed %d times (%r)" % (name, obs["counts"][name], got)))
@@ -255,7 +268,7 @@ def judge(case, obs):
         bad.append(("later:%s:raised-%s" % (lk[0], later[1]), "read %r after close raised %s %s" % (lk, later[1], later[2])))
     elif later[0] == "pending":
         bad.append(("later:%s:pending" % lk[0], "read %r after close stays pending" % (lk,)))
-    elif later[0] == "ok":
+    elif later[0] == "ok" and cancel != "read":      # what a cancelled read consumed is not specified
         val = later[1]
         if lk[0] == "ri":
             typ_ok = isinstance(val, tuple) and isinstance(val[0], int)
@@ -271,7 +284,9 @@ def judge(case, obs):
                         "read %r after close returned %r but %r was buffered" % (lk, val, left)))
     if obs["errlogs"]:
         bad.append(("error-log", "error logs %r" % (obs["errlogs"][:2],)))
-    if obs["loop_errors"]:
+    if obs["loop_errors"] and cancel is None:
+        # (with a cancelled write future the done-callback installed by write() itself raises CancelledError into
+        # the loop's exception handler on the unchanged tree: noise outside the statement)
         bad.append(("loop-exception", "loop exception handler: %r" % (obs["loop_errors"][:2],)))
     return bad
 
@@ -297,6 +312,14 @@ def all_cases():
                                     continue
                                 for li in range(len(LATER)):
                                     yield (connecting, pre, ri, nw, di, mode, cause, li)
+                                # one of the pending operations was cancelled by its caller before the close
+                                for cancel in ("read", "write0", "connect"):
+                                    if (cancel == "read" and ri == 0) or (cancel == "write0" and nw == 0) or \
+                                            (cancel == "connect" and not connecting):
+                                        continue
+                                    if (ri != 0) + nw + connecting < 2:
+                                        continue        # nothing else pending
+                                    yield (connecting, pre, ri, nw, di, mode, cause, 0, cancel)
 
 
 class C13(Check):
@@ -305,7 +328,8 @@ class C13(Check):
     rule = ("full product: stream connecting or connected x pre-buffered data x pending read kind (8) x 0-2 "
             "writes blocked by EAGAIN x close cause {close(), close(exc_info), EOF, ECONNRESET on read, EIO on "
             "read, EPIPE on write, EIO on write, SO_ERROR on connect} x data {none, partial, satisfying} "
-            "arriving before or together with the cause x read issued after the close (6 kinds); "
+            "arriving before or together with the cause x read issued after the close (6 kinds); plus the same with one of "
+            "the pending futures (read / first write / connect) cancelled by its caller before the cause; "
             "state = one execution; non-trivial = executions with >= 1 pending operation at the close")
     claim = ("For every close point in the product the real IOStream must complete every pending future exactly "
              "once (reads the buffer satisfies with their data, the rest StreamClosedError carrying the cause), "
@@ -348,7 +372,7 @@ class C13(Check):
 
 
 def describe(case):
-    connecting, pre, ri, nw, di, mode, cause, li = case
+    connecting, pre, ri, nw, di, mode, cause, li = case[:8]
     return ("connecting=%d prebuffered=%d pending_read=%r blocked_writes=%d data=%r(%s) cause=%s later=%r"
             % (connecting, pre, READS[ri], nw, DATA[di], mode, cause, LATER[li]))
 
